@@ -22,6 +22,11 @@ or in the build/evaluate part of the trace is reported as a broken correspondenc
 import asyncio
 import itertools
 import json
+import os
+import re
+import shutil
+import subprocess
+import tempfile
 import types
 
 import lib
@@ -403,7 +408,10 @@ def check_cases(chk, cases, replay=False):
 
     results = asyncio.run(run_all())
     lines = [model_line(c, es) for c, (_, es) in zip(cases, results)]
-    models = [_canon_model(lib.dec(x)) for x in lib.run_model("asgi", lines, chunk=250, procs=16)]
+    answers = lib.run_model("asgi", lines, chunk=250, procs=16)
+    models = [_canon_model(lib.dec(x)) for x in answers]
+    if not replay and len(cases) > 1000 and "extraction_crosscheck" not in chk.extra:
+        extraction_crosscheck(chk, lines, answers)
 
     for c, (obs, es), m in zip(cases, results, models):
         cat = _category(c, es)
@@ -760,6 +768,38 @@ def gen_ood_surrogate(chk):
            "eval": {"k": "ret", "d": d}, "send_fail": None, "app_exc": None}
 
 
+def extraction_crosscheck(chk, lines, answers):
+    """re-evaluate a deterministic sample of wire lines inside Coq (vm_compute on AsgiRun.run_line) and require the
+    extracted OCaml runner's answers; a difference is a broken trusted component (reported as a correspondence break)."""
+    n = 40 if chk.tier == "quick" else 300
+    short = [i for i, l in enumerate(lines) if len(l) < 4000]
+    if not short:
+        return
+    stepi = max(1, len(short) // n)
+    idx = short[::stepi][:n]
+    tmp = tempfile.mkdtemp(prefix="c20x_")
+    try:
+        src = ["From Coq Require Import String.", "From Rbacx Require Import AsgiRun.", "Local Open Scope string_scope."]
+        for i in idx:
+            assert '"' not in lines[i]
+            src.append('Eval vm_compute in (run_line "%s").' % lines[i])
+        with open(os.path.join(tmp, "cases_C20.v"), "w") as f:
+            f.write("\n".join(src) + "\n")
+        r = subprocess.run(["coqc", "-Q", str(lib.COQ / "theories"), "Rbacx", "cases_C20.v"], cwd=tmp,
+                           capture_output=True, text=True, timeout=600)
+        got = re.findall(r'=\s*"([^"]*)"\s*:\s*string', r.stdout)
+        got = [re.sub(r"\s+", " ", g) for g in got]
+        bad = [i for i, g in zip(idx, got) if g != answers[i]]
+        chk.extra["extraction_crosscheck"] = {"cases": len(idx), "evaluated_in_coq": len(got), "mismatches": len(bad)}
+        if r.returncode != 0 or len(got) != len(idx) or bad:
+            chk.corr_break("extracted OCaml runner vs vm_compute of AsgiRun.run_line inside Coq (trusted component)",
+                           {"line": lines[bad[0]] if bad else None, "coqc_rc": r.returncode, "stderr": r.stderr[-500:]},
+                           impl=answers[bad[0]] if bad else None, model=got[idx.index(bad[0])] if bad else None,
+                           theorems=["all of props/C20.v (the runner no longer computes the proved model)"])
+    finally:
+        shutil.rmtree(tmp, ignore_errors=True)
+
+
 def corpus_cases():
     out = []
     d = lib.VERIF / "corpus" / "C20"
@@ -807,3 +847,10 @@ def run(chk):
     step = 20000
     for i in range(0, len(cases), step):
         check_cases(chk, cases[i:i + step])
+    chk.notes.append(
+        "out-of-domain stream (lone surrogates in reason / rule id / policy id): %d cases, of which %d denials with "
+        "add_headers on: fails closed: exception (UnicodeEncodeError), nothing sent, downstream not run; %d denials "
+        "answered with the normal 403; by design this stream raises an alarm only if downstream is invoked or a "
+        "partial response is sent" % (chk.dist.get("ood:surrogate", 0),
+                                      chk.dist.get("ood:surrogate:raised_nothing_sent", 0),
+                                      chk.dist.get("ood:surrogate:403_sent", 0)))
